@@ -276,7 +276,10 @@ func (s *Sim) honestDelay(d *delivery) int {
 	case TagComplaint:
 		ok = s.Round == 1
 	case TagAnswer:
-		ok = s.Round <= 2
+		// an answer emitted in round 3 (the reaction to something delivered after the second timeout) may miss End
+		// altogether: "next round" then means never.  On a correct implementation nothing that arrives after the
+		// second timeout makes an honest dealer answer, so nothing of consequence is dropped.
+		ok = s.Round <= 3
 	}
 	if !ok || !s.G.Chance("honestReactionNextRound", 1, 5) {
 		return 0
